@@ -102,7 +102,7 @@ impl Run {
             .and_then(|s| s.parse::<f64>().ok())
             .unwrap_or(match tier {
                 Tier::Quick => 45.0,
-                Tier::Thorough => 1500.0,
+                Tier::Thorough => 900.0,
             });
         Run {
             id: id.to_string(),
